@@ -397,6 +397,51 @@ def compare_outputs(prefix, got, comp, density, lams, case, tag, outputs=OUTPUTS
                                 % (o, g, v[o], lam, density), case)
 
 
+class Retained(object):
+    """Results handed to the caller stay the caller's: every array returned by a sequence of calls is
+    kept together with a copy taken at return time; later calls must not change it, and arrays of
+    different calls (or the components of one result, or the caller's own argument arrays) must not
+    share memory."""
+
+    def __init__(self, prefix, case, foreign=()):
+        self.prefix, self.case = prefix, case
+        self.kept = []                      # (label, name, object, copy)
+        self.foreign = list(foreign)        # (name, array) of the caller
+
+    def _arrays(self, named):
+        np = env()["np"]
+        return [(n, x) for n, x in named if isinstance(x, np.ndarray)]
+
+    def add(self, label, named):
+        """named: [(output name, value)] of one call"""
+        np = env()["np"]
+        self.verify("before " + label)
+        new = self._arrays(named)
+        for i, (n1, x1) in enumerate(new):
+            for n2, x2 in new[i + 1:]:
+                if x1.size and x2.size and np.shares_memory(x1, x2):
+                    raise Violation(self.prefix + ":results-share-memory",
+                                    "%s: %s and %s of one result share memory" % (label, n1, n2), self.case)
+            for lab, n2, x2, _ in self.kept:
+                if x1.size and x2.size and np.shares_memory(x1, x2):
+                    raise Violation(self.prefix + ":results-share-memory",
+                                    "%s of %s shares memory with %s of %s" % (n1, label, n2, lab), self.case)
+            for n2, x2 in self._arrays(self.foreign):
+                if x1.size and x2.size and np.shares_memory(x1, x2):
+                    raise Violation(self.prefix + ":results-share-memory",
+                                    "%s of %s shares memory with the caller's %s" % (n1, label, n2), self.case)
+        for n, x in new:
+            self.kept.append((label, n, x, x.copy()))
+        self.verify("after " + label)
+
+    def verify(self, when=""):
+        np = env()["np"]
+        for lab, n, x, c in self.kept:
+            if not (x.shape == c.shape and bool(np.array_equal(x, c, equal_nan=True))):
+                raise Violation(self.prefix + ":result-changed-after-return",
+                                "%s returned by %s was %r when returned and is %r %s" % (n, lab, c, x, when), self.case)
+
+
 def has_edep(comp):
     R = env()["ref"]
     return any(R.is_tabulated(z, a) for z, a, c in comp)
